@@ -178,6 +178,7 @@ def validate_trace(ctx, name, trace_path, index, mode, legacy):
         m = re.search(r'(\d+) states generated, (\d+) distinct states found', out)
         if m:
             states += int(m.group(2))
+        ctx.cov['labels']['TraceEvents_outside_model'] = ctx.cov['labels'].get('TraceEvents_outside_model', 0) + out.count('"GODEC-DC"')
         if 'Invariant NoMismatch is violated' in out:
             l, bad = _tlc_last_state(out)
             if l is None:
@@ -186,7 +187,7 @@ def validate_trace(ctx, name, trace_path, index, mode, legacy):
             tr = next((t for t in traces if t['first'] <= line <= t['last']), None)
             if tr is None:
                 raise Broken('stage %s: rejected line %d belongs to no trace' % (name, line))
-            report_trace_violation(ctx, name, tr, bad, events[tr['first'] - 1:tr['last']], line - tr['first'] + 1, legacy)
+            report_trace_violation(ctx, name, tr, bad, events[tr['first'] - 1:tr['last']], line - tr['first'] + 1, legacy, mode)
             reported += 1
             offset = tr['last']                        # continue with the next trace
             continue
@@ -198,7 +199,7 @@ def validate_trace(ctx, name, trace_path, index, mode, legacy):
     return states, reported
 
 
-def report_trace_violation(ctx, name, tr, bad, lines, at, legacy):
+def report_trace_violation(ctx, name, tr, bad, lines, at, legacy, mode='value'):
     """A trace recorded from the real code is not a behaviour of the specification."""
     sig = {'fam': 'trace-' + tr['fam'], 'kind': bad or '', 'lab': '', 'lastop': ''}
     for f in json.load(open(FINDINGS))['findings']:
@@ -210,7 +211,7 @@ def report_trace_violation(ctx, name, tr, bad, lines, at, legacy):
     os.makedirs(REPLAYS, exist_ok=True)
     import hashlib
     body = {'property': ctx.prop, 'kind': 'trace-rejected', 'detail': bad, 'sig': sig,
-            'case': dict(tr, package='v4' if legacy else 'v5', rejected_event=at, events=[json.loads(x) for x in lines])}
+            'case': dict(tr, package='v4' if legacy else 'v5', mode=mode, rejected_event=at, events=[json.loads(x) for x in lines])}
     h = hashlib.sha1(json.dumps(body, sort_keys=True).encode()).hexdigest()[:12]
     path = os.path.join(REPLAYS, '%s-%s.json' % (ctx.prop, h))
     json.dump(body, open(path, 'w'), indent=1)
@@ -249,6 +250,8 @@ def B_trace(name, fam, n, maxops=10, mode='value', legacy=False, plain=False, ca
                     lines[i] = l.replace('"bytes":[1', '"bytes":[88,1', 1); break
                 if mode != 'bytes' and '"ok":true' in l:
                     lines[i] = l.replace('"ok":true', '"ok":false', 1); break
+                if mode != 'bytes' and '"ev":"godec"' in l and '"err":false' in l:
+                    lines[i] = l.replace('"err":false', '"err":true', 1); break
             open(trace, 'w').write('\n'.join(lines))
         states, reported = validate_trace(ctx, name, trace, index, mode, legacy)
         ctx.exhaustive = False
@@ -361,7 +364,7 @@ def A_goenc(name, level, **kw):
 
 def A_godec(name, level, **kw):
     def run(ctx):
-        run_A(ctx, 'MCGoDec', name, {'EmitOn': 'TRUE', 'Level': level, 'MaxNest': 10000}, invariants=('TypeKept', 'Stable', 'NullIsZero', 'UseNumberOnlyIface'),
+        run_A(ctx, 'MCGoDec', name, {'EmitOn': 'TRUE', 'Level': level, 'MaxNest': 10000}, invariants=('TypeKept', 'Stable', 'NullIsZero', 'UseNumberOnlyIface', 'Modelled'),
               spec='DecSpec', **kw)
     return run
 
@@ -449,7 +452,7 @@ def replay_file(ctx, plan, path):
     before = ctx.violations
     if v.get('kind') == 'trace-rejected':
         # direction B: re-execute the recorded inputs, record the events again, validate them again
-        B_trace('replay', case['fam'], 0, mode='ordered' if ctx.prop == 'C05' else 'value', legacy=legacy, case=path)(ctx)
+        B_trace('replay', case['fam'], 0, mode=case.get('mode', 'ordered' if ctx.prop == 'C05' else 'value'), legacy=legacy, case=path)(ctx)
         return 1 if ctx.violations > before else 0
     if v.get('kind') == 'data-race':
         print('a data race is a property of an execution: re-running the stage that reported it')
@@ -716,7 +719,8 @@ PLANS.update({
         'assumptions': TEXT_ASSUME + ['Go values are the 837 of spec/MCGoEnc.tla (GoEnc.tla states the encoding rules); decoding INTO typed values '
                                       'and the token API of Decoder are NOT modelled by the specification: they are covered only by the '
                                       'differential comparison with encoding/json (kind std-diff), see DESIGN.md section 11.2'],
-        'required_labels': {t: ['Word_invalid', 'Word_valid_obj', 'Word_valid_str', 'Enc_obj', 'Enc_str', 'Enc_num', 'StreamDecoded', 'GoEnc_struct', 'GoEnc_map', 'GoEnc_ptr', 'GoEnc_bytes']
+        'required_labels': {t: ['Word_invalid', 'Word_valid_obj', 'Word_valid_str', 'Enc_obj', 'Enc_str', 'Enc_num', 'StreamDecoded', 'GoEnc_struct', 'GoEnc_map', 'GoEnc_ptr', 'GoEnc_bytes',
+                                 'GoDec_struct_ok', 'GoDec_struct_saved', 'GoDec_struct_hard', 'GoDec_tmap_saved', 'GoDec_tslice_ok', 'GoDec_ptr_ok', 'TraceEvents_godec']
                             for t in ('quick', 'thorough')},
     },
 })
@@ -926,3 +930,8 @@ _addB('C17', [B_trace('ts', 'scan', 600)], [B_trace('ts', 'scan', 12000)],
 _addB('C15', [B_trace('tb', 'patch', 400, mode='bytes')], [B_trace('tb', 'patch', 8000, mode='bytes')],
       _TB % ('patch traces WITH the raw output bytes of every successful operation', 'the bytes are read by the specification\'s own RFC 8259 grammar '
              '(JsonText!ParseText) and must denote the reference document; with EscapeHTML on they must be free of raw < > & U+2028 U+2029'))
+_addB('C17', [B_trace('tg', 'godec', 500)], [B_trace('tg', 'godec', 10000)],
+      'random Go types (run-time generated struct types with tags, `,string`, embedded structs, pointers, typed slices and maps, depth 3) and JSON '
+      'texts aimed at them (fitting values, wrong kinds, member names matching exactly / by case folding incl. U+212A and U+017F / not at all, repeated '
+      'names, base64, int64 range) decoded with Unmarshal, Decoder and Decoder+UseNumber: TLC evaluates GoDec!Dec on the recorded type and text and '
+      'rejects the trace unless the value stored and the presence of an error are what the decoding rules say')
